@@ -591,10 +591,12 @@ class GibbsTempo(BaseAPIClass):
         max_step = self._parameters.n_steps
         propagators = self._system.get_unitary_propagators(
             - 1j * self._dt, 0, 0, 0)
+        # N.B. the backend works with row vectors, i.e. it applies the
+        #      transpose of the propagator it is given.
         self._backend_instance = TIBaseBackend(
                 dim,
                 epsrel,
-                propagators(1)[0],
+                propagators(1)[0].T,
                 coeffs,
                 operators,
                 max_step=max_step,
